@@ -38,11 +38,11 @@ THEOREM StepCore == Core /\ [Next]_vars => Core'
 <1>2 ASSUME NEW s \in BSyms, Write(s) PROVE Core'
   <2>1 CASE wPass
     BY <1>2, <2>1 DEF Write, Core, Log
-  <2>2 CASE ~wPass /\ s = "APP"
+  <2>2 CASE ~wPass /\ s \in {"APP", "ZEROAPP"}
     BY <1>2, <2>2 DEF Write, Core, Log
-  <2>3 CASE ~wPass /\ s # "APP" /\ s = "HRR"
+  <2>3 CASE ~wPass /\ s \notin {"APP", "ZEROAPP"} /\ s = "HRR"
     BY <1>2, <2>3 DEF Write, Core, Log
-  <2>4 CASE ~wPass /\ s # "APP" /\ s # "HRR"
+  <2>4 CASE ~wPass /\ s \notin {"APP", "ZEROAPP"} /\ s # "HRR"
     BY <1>2, <2>4 DEF Write, Core, Log
   <2> QED BY <2>1, <2>2, <2>3, <2>4
 <1>3 CASE UNCHANGED vars
